@@ -133,6 +133,19 @@ Section Dce.
       + apply agree_bind_left; auto. now apply memb_false.
     - eexists. split; [reflexivity|]. exact Hag'.
   Qed.
+  Lemma P_SStruct x tn es : P (SStruct x tn es).
+  Proof.
+    intros S s Hsc (Hnd & Hfr & Hint) e1 e2 tr Hag. cbn in Hsc.
+    cbn [dce_stmt] in *. destruct (negb (memb x s)) eqn:E; cbn [fst snd exec_opt] in *.
+    - apply negb_true_iff in E. apply memb_false in E. cbn. exists e2. split; auto. now apply agree_bind_left.
+    - cbn. rewrite (agree_evals w _ _ _ _ es Hag Hsc) by (intros y Hy; rewrite In_use_exprs; auto).
+      eexists. split; [reflexivity|]. apply agree_bind_both.
+      eapply agree_on_sub; eauto. intros y Hy. rewrite In_use_exprs. auto.
+  Qed.
+  Lemma P_SLateDecl x : P (SLateDecl x).
+  Proof. intros S s Hsc. discriminate Hsc. Qed.
+  Lemma P_SLateAssign x a : P (SLateAssign x a).
+  Proof. intros S s Hsc. discriminate Hsc. Qed.
   Lemma P_SBreak a : P (SBreak a).
   Proof.
     intros S s Hsc (Hnd & Hfr & Hint) e1 e2 tr Hag. cbn in Hsc.
@@ -477,6 +490,9 @@ Section Dce.
     - exact P_SSIf.
     - exact P_SBreak.
     - exact P_SWhile.
+    - exact P_SStruct.
+    - exact P_SLateDecl.
+    - exact P_SLateAssign.
     - exact Q_nil.
     - exact Q_cons.
   Qed.
